@@ -522,6 +522,12 @@ def _stepping(chk):
         prop2 = sc._SecantStep.predict(self, "LAST", X(st[0]))
         for a, u, t in zip(vals(prop2.prediction), last, d):
             require_identity(red, a, u + t / nrm * st[0], key_prefix="secant-prediction-scalar-step")
+        # a one-parameter continuation hands over a length-1 ARRAY: still an array step, offset = its length |h| along the
+        # secant (the secant carries the direction), whatever the sign of the component
+        prop1 = sc._SecantStep.predict(self, "LAST", xarr([st[0]]))
+        h1 = alg.sqrt(st[0] ** 2)
+        for a, u, t in zip(vals(prop1.prediction), last, d):
+            require_identity(red, a, u + t / nrm * h1, key_prefix="secant-prediction-length-1-array-step")
         self0 = _Obj(_repr_fn=lambda o: xarr(last), _tangent_provider=lambda: None)
         prop3 = sc._SecantStep.predict(self0, "LAST", X(st[0]))
         want = [last[0] + st[0], last[1], last[2]]
